@@ -90,6 +90,11 @@ class Mon:
         r.hvbar = rng.choice([0, 0x300, 0x11400])
         if ctx.cfg['have_virt_ext'] and ns and ctx.prot == 'off':
             r.hcr.tge = rng.randrange(2)
+        if ctx.cfg['have_security_ext'] and rng.random() < 0.5:
+            # the Secure configuration bits that gate what User code can reach (SCD disables SMC, HCE enables HVC, the
+            # routing bits): none of them may open a way out of User mode other than an architectural exception
+            r.scr.value = (r.scr.value & 1) | (rng.getrandbits(9) << 1)
+            desc['scr'] = '%#x' % r.scr.value
         desc['v'] = r.sctlr.v
         return ctx, desc, ns
 
@@ -130,6 +135,10 @@ class Mon:
             outcome = 'exc-%05d' % int(format(mode, 'b'))
             if mode not in EXC_MODES:
                 mech = 'left-user-to-non-exception-mode|%s|%s' % (executed, format(mode, '05b'))
+            elif mode == 0b10110:
+                # no instruction executed in User mode enters Monitor mode: SMC is UNDEFINED there whatever SCR holds, and the
+                # other routes (external aborts, interrupts routed by SCR) are not taken by a lone instruction step
+                mech = 'user-instruction-entered-monitor-mode|%s' % executed
             else:
                 mname, spsr, lr, offsets = EXC_MODES[mode]
                 if mode == 0b11010:
@@ -290,7 +299,7 @@ def unpriv(mon, spec):
                 mon.bump('unpriv_on_protected')
                 if (post['cpsr'] & 0x1F) != 0b10111:
                     mon.report('C19|unpriv-variant-not-aborted-on-privileged-only-region|%s' % name, desc, desc)
-                elif background and (pre['mem0'] != post['mem0'] or pre['mem1'] != post['mem1']):
+                elif background and any(pre[m_] != post[m_] for m_ in ('mem0', 'mem1', 'mem3')):
                     mon.report('C19|unpriv-variant-stored-despite-abort|%s|background' % name, desc, desc)
                 elif pre['mem0'][0x1000:0x3000] != post['mem0'][0x1000:0x3000] or pre['mem1'][0x1800:0x2000] != post['mem1'][0x1800:0x2000]:
                     mon.report('C19|unpriv-variant-stored-despite-abort|%s' % name, desc, desc)
@@ -412,6 +421,8 @@ def replay(data):
     mon.scen.prepare(ctx, random.Random(1), rp['kind'], int(rp['word'], 16), mode=rp['mode'], ns=rp['ns'], regs=regs)
     ctx.cpu.registers.cpsr.value = int(rp['cpsr'], 16)
     ctx.cpu.registers.sctlr.v = rp.get('v', 0)
+    if rp.get('scr'):
+        ctx.cpu.registers.scr.value = int(rp['scr'], 16)
     pre = observe.snapshot(ctx.cpu)
     k, sig = mon.scen.step(ctx.cpu)
     post = observe.snapshot(ctx.cpu)
